@@ -73,11 +73,35 @@ def cases(rng, tier):
             p = workflow.gen_problem(rng, max_q=5, max_cuts=2, depth=6)
             p["form"] = "single" if rng.random() < 0.25 else "dict"
             p["N"] = rng.choice([None, None, None, 1, 2, 7, 50, 50, 500, 500, 5000, 17.5])
+            if rng.random() < 0.25:
+                p["reweight"] = rng.randrange(1, 1 << 30)   # the user re-weights the bases after the cuts were placed
         p["seed"] = rng.randrange(1 << 30)
         yield ("generate", p)
 
 
+def _reweight(circuits, payload):
+    """re-assign (through the public setter) the coefficients of the bases the cut gates carry: same maps, other magnitudes"""
+    if not payload.get("reweight"):
+        return
+    import random
+    from qiskit_addon_cutting.qpd import BaseQPDGate
+    rr = random.Random(payload["reweight"])
+    seen = set()
+    for c in (circuits.values() if isinstance(circuits, dict) else [circuits]):
+        for inst in c.data:
+            op = inst.operation
+            if isinstance(op, BaseQPDGate) and id(op.basis) not in seen:
+                seen.add(id(op.basis))
+                op.basis.coeffs = [float(x) * rr.choice([0.5, 2.0, -1.0, 1.5, 0.25]) for x in op.basis.coeffs]
+
+
 def _inputs(payload):
+    out = _inputs0(payload)
+    _reweight(out[0], payload)
+    return out
+
+
+def _inputs0(payload):
     """Real inputs of generate_cutting_experiments for this payload."""
     from qiskit_addon_cutting import partition_problem, cut_gates
     qc, labels, obs = workflow.build(payload)
@@ -221,8 +245,9 @@ def nontrivial_key(kind, payload):
 def oracle(kind, payload):
     """The contract's clauses, recomputed from the returned objects."""
     why = _oracle_contract(kind, payload)
-    if why is None and payload["N"] is None:
+    if why is None and payload["N"] is None and not payload.get("reweight"):
         # with exact weights the experiments and coefficients must reconstruct the uncut expectation values
+        # (not after a re-weighting: the bases then describe another operation than the gate they replaced)
         from . import c01
         try:
             why = c01.oracle("roundtrip", {k: v for k, v in payload.items()})
